@@ -5,6 +5,7 @@ import (
 	"context"
 	"fmt"
 	"reflect"
+	"runtime/debug"
 	"sort"
 	"time"
 
@@ -63,7 +64,7 @@ func (s *services) init(ctx context.Context) (stage string, err error, panicked 
 	step := func(name string, f func(context.Context) error) (err error, p bool) {
 		defer func() {
 			if r := recover(); r != nil {
-				err, p = fmt.Errorf("panic: %v", r), true
+				err, p = fmt.Errorf("panic: %v\n%s", r, debug.Stack()), true
 			}
 		}()
 		return f(ctx), false
@@ -102,7 +103,7 @@ var strictNil = map[string]bool{
 var timeType = reflect.TypeOf(time.Time{})
 
 type differ struct {
-	diffs []violation      // path -> detail
+	diffs []violation     // path -> detail
 	flips map[string]bool // tolerated nil<->empty flips that were observed
 }
 
